@@ -317,6 +317,24 @@ pub mod verif_hooks {
     use alloc::vec;
     use alloc::vec::Vec;
 
+    /// Constants the model of this core depends on: attach_type::{MARK, CURSIVE}, lookup flags
+    /// RIGHT_TO_LEFT / IGNORE_MARKS / IGNORE_FLAGS, GlyphPropsFlags::{BASE_GLYPH, MARK},
+    /// HB_BUFFER_SCRATCH_FLAG_HAS_GPOS_ATTACHMENT, UnicodeProps::IGNORABLE.
+    pub fn consts() -> [u32; 9] {
+        use crate::hb::ot_layout_common::lookup_flags;
+        [
+            attach_type::MARK as u32,
+            attach_type::CURSIVE as u32,
+            lookup_flags::RIGHT_TO_LEFT as u32,
+            lookup_flags::IGNORE_MARKS as u32,
+            lookup_flags::IGNORE_FLAGS as u32,
+            GlyphPropsFlags::BASE_GLYPH.bits() as u32,
+            GlyphPropsFlags::MARK.bits() as u32,
+            HB_BUFFER_SCRATCH_FLAG_HAS_GPOS_ATTACHMENT,
+            UnicodeProps::IGNORABLE.bits() as u32,
+        ]
+    }
+
     /// (x_advance, y_advance, x_offset, y_offset, attach_chain, attach_type)
     pub type P = (i32, i32, i32, i32, i16, u8);
 
